@@ -94,7 +94,7 @@ def make_terms(P, mix, lam, ns):
 def make_cfg(seed, idx, label, mix, tier):
     rng = common.random.Random('C09-cfg-%d-%d' % (seed, idx))
     return dict(idx=idx, seed=seed, label=label, mix=mix,
-                n=rng.choice([30, 45, 80] if tier == 'quick' else [24, 30, 45, 80, 150]),
+                n=rng.choice([16, 30, 45, 80] if tier == 'quick' else [16, 24, 30, 45, 80, 150]),
                 lam=rng.choice([0.6, 0.6, 0.01, 10.0, 100.0, 2.5]),
                 ns=rng.choice([5, 6, 8, 10]),
                 fit_intercept=rng.random() < 0.8,
@@ -249,7 +249,7 @@ def oracle_bounds(fit, mode, term, Xq, levels):
             mag = mag + abs(fit.scale)
         sd = np.sqrt(var)
         # rounding of the quadratic form (cancellation between large covariance entries) propagated to the sd
-        dsd = np.where(var > 0, 0.5 * mag / np.where(var > 0, sd, 1.0), np.inf) * 16 * fit.m * EPS
+        dsd = np.where(var > 0, 0.5 * mag / np.where(var > 0, sd, 1.0), np.where(mag > 0, np.inf, 0.0)) * 16 * fit.m * EPS
         line = lp[:, None] + z[None, :] * sd[:, None]
         tl = 1e-9 * (np.abs(lp)[:, None] + np.abs(z)[None, :] * sd[:, None]) \
             + 16 * fit.m * EPS * lpmag[:, None] + np.abs(z)[None, :] * dsd[:, None]
@@ -259,7 +259,7 @@ def oracle_bounds(fit, mode, term, Xq, levels):
             b = link_inv(fit.link, fit.levels, line)
             tol = np.abs(link_inv(fit.link, fit.levels, line + tl) - link_inv(fit.link, fit.levels, line - tl)) \
                 + 1e-9 * np.abs(b)
-        noisy = ~(var > 4 * 16 * fit.m * EPS * mag)       # variance not resolved above its own rounding
+        noisy = (mag > 0) & ~(var > 4 * 16 * fit.m * EPS * mag)       # variance not resolved above its own rounding
         tol = np.where(noisy[:, None] & (np.abs(z)[None, :] > 0), np.inf, tol)
         tol = np.where(np.isnan(tol), np.inf, tol)
         point = lp if mode == 'pd' else link_inv(fit.link, fit.levels, lp)
@@ -662,6 +662,8 @@ def reject_specs(rng, lits, tier):
         if rng.random() < 0.7:
             qs[rng.randrange(k)] = rng.choice([0.0, 1.0, -0.1, 1.5, -1e-300, 1 + 2.0 ** -52, 2.0, -5.0, float(np.nextafter(0, -1))])
         lists.append(qs)
+    lists += [[float('nan')], [0.5, float('nan')], [float('nan'), 0.0]]
+    widths.append(float('nan'))
     specs = [('w', w) for w in widths] + [('q', q) for q in scal] + [('q', l) for l in lists]
     return specs
 
@@ -711,11 +713,22 @@ def run_reject(ctx, P, prepared, lits):
                 else:
                     res = call_api(fit, mode, terms[0] if mode == 'pd' else -1, Xq, 0.95, v)
                     lv = [float(x) for x in np.atleast_1d(np.asarray(v, dtype=float))]
-                    ex = [common.f2q(x) if math.isfinite(x) else (Fraction(2) if x > 0 else Fraction(-1)) for x in lv]
+                    ex = [common.f2q(x) if math.isfinite(x) else (Fraction(2) if x > 0 else Fraction(-1)) for x in lv if x == x]
                 impl = 'ok' if res[0] == 'ok' else res[0]
                 sig = dict(mode=mode, kind=kind, v=repr(v), label=cfg['label'])
                 ctx.case(st, sig, nontrivial=True, sample=dict(sig=sig, impl=impl) if ti == 0 else None)
                 ctx.count('reject-outcome', impl)
+                has_nan = any(x != x for x in lv) or (kind == 'w' and v != v)
+                if has_nan and not (kind == 'q' and any((x <= 0 or x >= 1) for x in lv)):
+                    # a NaN level is neither inside nor (in the order sense) outside (0,1): the code lets it through and
+                    # returns NaN bounds; recorded as an observation, compared with the model only
+                    if impl == 'ok':
+                        ctx.count('suspected-defect', 'NaN level/width accepted (%s)' % mode)
+                    if impl != mo:
+                        ctx.disagree(st, dict(cfg=cfg, mode=mode, kind=kind, v=repr(v)), impl, mo, 'exception class (NaN)')
+                    continue
+                if has_nan:
+                    ex = [Fraction(-1) if (x != x or x <= 0 or x >= 1) else common.f2q(x) for x in lv]
                 must = (ex is not None and (len(ex) == 0 or any(e <= 0 or e >= 1 for e in ex))) or (ex is None)
                 inside = ex is not None and len(ex) > 0 and all(0 < x < 1 for x in lv) and all(0 < e < 1 for e in ex)
                 wrong = (must and impl != 'ValueError') or (inside and impl != 'ok')
@@ -758,19 +771,12 @@ def make_cfgs(ctx):
     cfgs = []
     idx = 0
     labels = list(LABELS)
-    if ctx.tier == 'quick':
-        # every class x 5 mixes (all 11 for the two LinearGAM variants, which also have prediction intervals)
+    reps = 1 if ctx.tier == 'quick' else 12
+    for rep in range(reps):
         for lab in labels:
-            mixes = MIXES if lab.startswith('LinearGAM') else rng.sample(MIXES, 5)
-            for mix in mixes:
+            for mix in MIXES:
                 cfgs.append(make_cfg(ctx.seed, idx, lab, mix, ctx.tier))
                 idx += 1
-    else:
-        for rep in range(4):
-            for lab in labels:
-                for mix in MIXES:
-                    cfgs.append(make_cfg(ctx.seed, idx, lab, mix, ctx.tier))
-                    idx += 1
     return cfgs
 
 
